@@ -6,6 +6,9 @@ use samlang_heap::Heap;
 use std::collections::HashMap;
 use std::time::Duration;
 
+/// the loader the compiler emits next to the module (same file the compiler embeds)
+const LOADER: &str = include_str!("/repo/crates/samlang-compiler/src/loader.js");
+
 pub struct Compiled {
   pub ts_code: String,
   pub wasm: Vec<u8>,
@@ -58,6 +61,87 @@ pub fn compile_in_order(mods: &[(Vec<String>, String)], entry: &[String], order:
       let main = wasm_js.rsplit("(binary).").next().unwrap_or("").split('(').next().unwrap_or("").to_string();
       CompileOutcome::Ok(Compiled { ts_code, wasm: res.wasm_file, loader, main, wat })
     }
+  }
+}
+
+/// what happens between MIR generation and LIR lowering
+#[derive(Clone, Debug, PartialEq)]
+pub enum Plan {
+  /// no optimizer at all
+  Unoptimized,
+  /// optimize_sources with [lvn, cse, loop, inlining, scalar replacement]
+  Config([bool; 5]),
+  /// the named passes, each applied once to the whole program, in order (cfg(samlang_verif) hook)
+  Passes(Vec<String>),
+}
+
+impl Plan {
+  pub fn describe(&self) -> String {
+    match self {
+      Plan::Unoptimized => "unoptimized".into(),
+      Plan::Config(c) => format!("config[lvn={},cse={},loop={},inline={},sr={}]", c[0] as u8, c[1] as u8, c[2] as u8, c[3] as u8, c[4] as u8),
+      Plan::Passes(p) => format!("passes[{}]", p.join(" > ")),
+    }
+  }
+}
+
+/// the compiler's pipeline (as in samlang_compiler::compile_sources) with a chosen optimization plan
+pub fn compile_with_plan(mods: &[(Vec<String>, String)], entry: &[String], plan: &Plan) -> CompileOutcome {
+  let mut heap = Heap::new();
+  let user_texts: Vec<&str> = mods.iter().map(|(_, t)| t.as_str()).collect();
+  let mut all: Vec<(Vec<String>, String)> = crate::model::front::needed_std(&mut heap, &user_texts);
+  all.extend(mods.iter().cloned());
+  let r = guard(|| {
+    let mut error_set = samlang_errors::ErrorSet::new();
+    let mut parsed = HashMap::new();
+    let mut handles = HashMap::new();
+    for (name, text) in &all {
+      let mr = heap.alloc_module_reference_from_string_vec(name.clone());
+      parsed.insert(mr, samlang_parser::parse_source_module_from_text(text, mr, &mut heap, &mut error_set));
+      handles.insert(mr, text.clone());
+    }
+    let entry_mr = heap.alloc_module_reference_from_string_vec(entry.to_vec());
+    let checked = samlang_checker::type_check_sources(&parsed, &mut error_set).0;
+    if error_set.has_errors() {
+      return Err(error_set.pretty_print_error_messages(&heap, &handles));
+    }
+    let mir = samlang_compiler::compile_sources_to_mir(&mut heap, &checked);
+    let mir = match plan {
+      Plan::Unoptimized => mir,
+      Plan::Config(c) => samlang_optimization::optimize_sources(
+        &mut heap,
+        mir,
+        &samlang_optimization::OptimizationConfiguration {
+          does_perform_local_value_numbering: c[0],
+          does_perform_common_sub_expression_elimination: c[1],
+          does_perform_loop_optimization: c[2],
+          does_perform_inlining: c[3],
+          does_perform_scalar_replacement: c[4],
+        },
+      ),
+      Plan::Passes(ps) => {
+        let mut m = mir;
+        for p in ps {
+          m = samlang_optimization::verif_hooks::run_pass(&mut heap, m, p);
+        }
+        m
+      }
+    };
+    if std::env::var("VERIF_DUMP_MIR").is_ok() {
+      eprintln!("{}", mir.debug_print(&heap));
+    }
+    let mut lir = samlang_compiler::compile_mir_to_lir(&mut heap, mir);
+    let common_ts = lir.pretty_print(&heap);
+    let mut main = String::new();
+    samlang_ast::mir::FunctionName { type_name: lir.symbol_table.create_main_type_name(entry_mr), fn_name: samlang_heap::PStr::MAIN_FN }.write_encoded(&mut main, &heap, &lir.symbol_table);
+    let ts_code = format!("{common_ts}\n{main}();\n");
+    let (wat, wasm) = samlang_compiler::compile_lir_to_wasm(&mut heap, lir);
+    Ok(Compiled { ts_code, wasm, loader: LOADER.to_string(), main, wat })
+  });
+  match r {
+    Err(e) => CompileOutcome::Panicked(e),
+    Ok(Err(msg)) => CompileOutcome::Rejected(msg),
+    Ok(Ok(c)) => CompileOutcome::Ok(c),
   }
 }
 
